@@ -4,6 +4,7 @@ package cl
 
 import (
 	"math"
+	"math/big"
 	"math/cmplx"
 
 	"github.com/ohler55/slip"
@@ -47,6 +48,25 @@ type Expt struct {
 // Call the function with the arguments provided.
 func (f *Expt) Call(s *slip.Scope, args slip.List, depth int) (result slip.Object) {
 	slip.CheckArgCount(s, depth, f, args, 2, 2)
+	if pow, ok := args[1].(slip.Fixnum); ok {
+		var base *big.Rat
+		switch tb := args[0].(type) {
+		case slip.Fixnum:
+			base = big.NewRat(int64(tb), 1)
+		case *slip.Bignum:
+			base = new(big.Rat).SetInt((*big.Int)(tb))
+		case *slip.Ratio:
+			base = (*big.Rat)(tb)
+		}
+		if base != nil {
+			if 0 <= pow {
+				return exptRational(base, int64(pow))
+			}
+			if base.Sign() == 0 {
+				slip.DivisionByZeroPanic(s, depth, f, args, "divide by zero")
+			}
+		}
+	}
 	if base, ok := args[0].(slip.Fixnum); ok {
 		if pow, ok2 := args[1].(slip.Fixnum); ok2 {
 			x := math.Pow(float64(base), float64(pow))
@@ -79,4 +99,18 @@ func (f *Expt) Call(s *slip.Scope, args slip.List, depth int) (result slip.Objec
 		slip.TypePanic(s, depth, "base", base, "number")
 	}
 	return
+}
+
+// exptRational returns a rational base raised to a non-negative integer power
+// as an exact rational.
+func exptRational(base *big.Rat, pow int64) slip.Object {
+	var (
+		num big.Int
+		den big.Int
+		z   big.Rat
+	)
+	e := big.NewInt(pow)
+	_ = num.Exp(base.Num(), e, nil)
+	_ = den.Exp(base.Denom(), e, nil)
+	return ratReduce(z.SetFrac(&num, &den))
 }
